@@ -292,9 +292,14 @@ def dangling_family(ctx, r):
     program = program_for(r, r.choice([1, 2]), features={"cached": False, "domains": False, "allopts": False}, n_datasets=r.choice([0, 1, 2]))
     for d in program["datasets"].values():
         d["cache"] = "nocache"
+    dangling_cases(ctx, program, [U.random_options(r, p_present=0.8, templated=0.35) for _ in range(4)])
+
+
+def dangling_cases(ctx, program, dictionaries):
+    from ..ref import Ref, RefErr
+
     G = build(program)
-    for _ in range(4):
-        o = U.random_options(r, p_present=0.8, templated=0.35)
+    for o in dictionaries:
         ref = Ref(program)
         cands = None
         try:
@@ -324,6 +329,26 @@ def dangling_family(ctx, r):
                 return
             knf = [x for x in chain(err) if isinstance(x, KeyNotFoundError)]
             ctx.count("dangling_missing_key_reports")
+            # the order in which independent arguments are evaluated is not promised: every key the reference still
+            # misses after the ones found so far have been supplied is a legitimate report
+            cands = set(cands)
+            o_sup = copy.deepcopy(o)
+            for _ in range(6):
+                for k in sorted(cands):
+                    if isinstance(k, str) and U.lookup(k, o_sup) is U.ABSENT:
+                        try:
+                            o_sup = U.set_path(o_sup, k, "supplied")
+                        except Exception:  # noqa: BLE001
+                            pass
+                try:
+                    Ref(program).eval(program["root"], o_sup)
+                    break
+                except RefErr as e2:
+                    if e2.kind != "KeyNotFoundError" or set(e2.candidates) <= cands:
+                        break
+                    cands |= set(e2.candidates)
+                except RecursionError:
+                    break
             if not knf or knf[-1].key not in cands:
                 ctx.violation("missing-key-misreported", f"failure names {knf[-1].key if knf else None!r}; the keys that are really absent: {sorted(cands)} in {short(o)}", W)
                 return
@@ -382,6 +407,9 @@ def known_finding_reproducer(ctx):
 
 def replay(ctx, rep):
     w = rep["witness"]
+    if w.get("source") == "dangling":
+        dangling_cases(ctx, w["program"], w["history"])
+        return
     if rep.get("monitor") == "supplying-missing-option":
         partial, full = w["history"]
         k = next(k for k in U.leaf_paths(full) if U.lookup(k, partial) is U.ABSENT) if partial != full else None
